@@ -1,3 +1,4 @@
+use std::cell::Cell;
 use std::fmt::{Debug, Formatter};
 use anyhow::{anyhow, bail, Context, Result};
 use java_string::JavaString;
@@ -215,15 +216,25 @@ impl PoolEntry {
 			bail!("cannot load `Dynamic` pool entry, as there's no bootstrap method at index {}", bootstrap_method_attribute_index);
 		};
 		let handle = method.handle.clone();
-		let arguments = {
+
+		// A `Dynamic` entry may have other `Dynamic` entries as bootstrap arguments, but never (indirectly) itself:
+		// a chain of them is at most as long as the pool, anything longer is a cycle.
+		let depth = pool.dynamic_depth.get();
+		if depth as usize >= pool.inner.len().min(MAX_DYNAMIC_DEPTH) {
+			bail!("`Dynamic` pool entries are nested too deeply or refer to themselves, at bootstrap method index {bootstrap_method_attribute_index:?}");
+		}
+		pool.dynamic_depth.set(depth + 1);
+		let arguments: Result<Vec<Loadable>> = (|| {
 			let mut vec = Vec::with_capacity(method.arguments.len());
 			for &argument in &method.arguments {
 				let value = pool.get_loadable(argument, bootstrap_methods)
 					.with_context(|| anyhow!("while argument for `Dynamic` at index {bootstrap_method_attribute_index:?}: {name:?} {descriptor:?} {handle:?}"))?;
-				vec.push(value); // TODO: recursion
+				vec.push(value);
 			}
-			vec
-		};
+			Ok(vec)
+		})();
+		pool.dynamic_depth.set(depth);
+		let arguments = arguments?;
 
 		Ok(ConstantDynamic { name, descriptor, handle, arguments })
 	}
@@ -282,9 +293,14 @@ impl PoolEntry {
 	}
 }
 
+/// Limits the recursion when resolving `Dynamic` entries that have `Dynamic` entries as bootstrap arguments.
+const MAX_DYNAMIC_DEPTH: usize = 64;
+
 pub(crate) struct PoolRead {
 	/// We store a [`None`] for the zero index, as well as for the upper indices of [`PoolEntry::Double`] and [`PoolEntry::Long`].
 	inner: Vec<Option<PoolEntry>>,
+	/// How many `Dynamic` entries are being resolved right now, each as a bootstrap argument of the one before.
+	dynamic_depth: Cell<u16>,
 }
 
 impl PoolRead {
@@ -395,7 +411,7 @@ impl PoolRead {
 			};
 		}
 
-		Ok(PoolRead { inner: pool })
+		Ok(PoolRead { inner: pool, dynamic_depth: Cell::new(0) })
 	}
 
 	fn get(&self, index: u16) -> Result<&PoolEntry> {
